@@ -276,7 +276,15 @@ func (t *State) verifySignatures(tx *pb.Transaction, digestHash []byte) (bool, m
 	return true, verifiedAddr, nil
 }
 
-func (t *State) verifyXuperSign(tx *pb.Transaction, digestHash []byte) (bool, map[string]bool, error) {
+func (t *State) verifyXuperSign(tx *pb.Transaction, digestHash []byte) (ok bool, ids map[string]bool, err error) {
+	// the signature library dereferences unchecked curve points: a malformed signature must be a
+	// rejection, not a crash of the node
+	defer func() {
+		if r := recover(); r != nil {
+			t.log.Warn("XuperSign: malformed signature", "panic", r)
+			ok, ids, err = false, nil, errors.New("XuperSign: malformed signature")
+		}
+	}()
 	uniqueAddrs := make(map[string]bool)
 	// get all addresses
 	uniqueAddrs[tx.Initiator] = true
@@ -311,7 +319,7 @@ func (t *State) verifyXuperSign(tx *pb.Transaction, digestHash []byte) (bool, ma
 			return false, nil, errors.New("XuperSign: address and public key not match")
 		}
 	}
-	ok, err := t.sctx.Crypt.VerifyXuperSignature(pubkeys, tx.GetXuperSign().GetSignature(), digestHash)
+	ok, err = t.sctx.Crypt.VerifyXuperSignature(pubkeys, tx.GetXuperSign().GetSignature(), digestHash)
 	if err != nil || !ok {
 		t.log.Warn("XuperSign: signature verify failed", "error", err)
 		return false, nil, errors.New("XuperSign: address and public key not match")
